@@ -154,6 +154,46 @@ def r16_2(ctx):
     stores = sorted(U(n.targets[0]) for n in ast.walk(fa.node) if isinstance(n, ast.Assign))
     ctx.check("hybrids are registered as exec and write operand", stores == ["self.exec_ops[hybrid.get_name()]", "self.write_ops[hybrid.get_name()]"], "exec_ops and write_ops", str(stores), fn_where(idx, fa))
     exec_dependency_walk(ctx)
+    every_effect_is_declared_in_both_layouts(ctx)
+
+
+def every_effect_is_declared_in_both_layouts(ctx):
+    """both layouts declare every written effect exactly once: whatever class the effect is (incl. calls without value), the WRITE block
+    and the statement blocks each print `RzILOpEffect *<var> = <write>;` for a not yet declared one.  The two emit functions are
+    interpreted on a holder with one written effect; what the effect writes is a hole."""
+    from sa.absint import AObj, Interp
+    from .common import mk_vt, outcome_text
+
+    idx = get_index(ctx.env)
+    effs = sorted(c for c in idx.subclasses("Effect", strict=True) if c != "Empty")
+    ctx.need(len(effs) >= 10, f"effect classes: only {effs}")
+
+    def hook(i, callee, a, k, t):
+        fn = getattr(getattr(callee, "finfo", None), "name", "")
+        if fn == "il_write":
+            return "<write>"
+        if fn == "__str__":
+            return "<str>"
+        if fn == "get_exec_op_list":
+            return []
+        return NotImplemented
+
+    for c in effs:
+        hyb = "Hybrid" in idx.mro(c)
+        for void in ((False, True) if hyb else (False,)):
+            got = {}
+            for q in ("emit_stmt_blocks", "emit_write_block"):
+                fi = idx.func(f"RZILTransformer.{q}")
+
+                def once(i, c=c, void=void, fi=fi):
+                    node = AObj(c, {"name": "e", "num_id": 1, "effect_init_count": 0, "pure_init_count": 0, "init_counter": 0, "reads": 0,
+                                    "value_type": mk_vt("t", False, 32, ("VOID",) if void else ("PURE",)), "effect_ops": [], "ops": []}, label="node")
+                    h = AObj("ILOpsHolder", {"write_ops": {"e": node}}, label="holder")
+                    return i.call_function(fi, [h, ""], self_obj=AObj("RZILTransformer", {}, label="self"))
+                outs = Interp(idx, call_hook=hook).explore(once)
+                got[q] = sorted({outcome_text(o).count("RzILOpEffect *e = <write>;") if o.kind == "return" else -1 for o in outs})
+            ctx.check(f"a written {c}{' without value' if void else ''} is declared once by the statement blocks and once by the WRITE block", got == {"emit_stmt_blocks": [1], "emit_write_block": [1]},
+                      "one declaration in either layout", str(got), fn_where(idx, idx.func("RZILTransformer.emit_stmt_blocks")), nontrivial=(void or c != "Assignment"))
 
 
 def exec_dependency_walk(ctx):
@@ -410,3 +450,10 @@ def r16_7(ctx):
     from .c14 import r14_1
 
     r14_1(ctx)
+
+
+@rule("R16.8", "C16", "what an effect writes does not depend on how many of its operands' reads were printed before it (the layouts print reads in different orders): the copy of an immediate into its IL variable is written whenever it is printed", min_instances=3)
+def r16_8(ctx):
+    from .c12 import immediate_read_protocol
+
+    immediate_read_protocol(ctx)
